@@ -213,6 +213,17 @@ def stats_of(r):
                                                   (sec.split(" ev=")[1].split(" ")[0].split(",") if " ev=" in sec else [])
                                                   if e[:1] == "S")
     c["len"] = len(r["lines"])
+    # sealed prefix (no unlock yet): the states on which the invariants of sealed pools (bits 14-16) and lost = false are demanded
+    fu = next((k for k, ln in enumerate(r["lines"]) if _has_unlock(ln)), len(r["lines"]))
+    c["sealed:states_checked"] += fu
+    gac_at = [k for k, ln in enumerate(r["lines"][:fu]) if len(ln.split()) > 2 and ln.split()[0] == "on" and ln.split()[2] == "gac"]
+    if gac_at:
+        c["sealed:histories_with_gather_and_close"] += 1
+        c["sealed:states_after_a_gather_and_close"] += fu - gac_at[0]
+        if any(" z=1" in o for o in r["obs"][:fu]):
+            c["sealed:histories_closed_before_any_unlock"] += 1
+        if len(gac_at) > 1:
+            c["sealed:histories_with_several_gather_and_close"] += 1
     return c, started
 
 
@@ -376,6 +387,7 @@ def run(prop, tier, seed, jobs, proof, out):
         "op_histogram": {k: v for k, v in sorted(agg["stats"].items()) if k.startswith("op:")},
         "error_kinds": {k: v for k, v in sorted(agg["stats"].items()) if k.startswith("err:")},
         "multi_await_workers": {k[3:]: v for k, v in sorted(agg["stats"].items()) if k.startswith("ma:")},
+        "sealed_prefixes": {k[7:]: v for k, v in sorted(agg["stats"].items()) if k.startswith("sealed:")},
         "corpus_histories": len(bodies),
         "projection": {"fields": props.PROJ[prop][0], "events": list(props.PROJ[prop][1])},
         "exhaustive": False,
